@@ -112,3 +112,32 @@ register(PropertySpec(
     assumptions=["C08's guarantees (the override is restored)", "user predicates are deterministic"],
     design_ref="DESIGN.md §2 C09",
 ))
+
+from . import history
+
+register(PropertySpec(
+    id="C04",
+    title="a query's answer does not depend on what was evaluated before it",
+    rules=[
+        Rule("RESET-ALL-EXITS", reset.rule_reset_all_exits, 2,
+             "for every public evaluate(): from every point that runs evaluation, every normal, exceptional and "
+             "generator-close path to an exit passes self._reset_cache_() (or the reset dominates the evaluation)"),
+        Rule("EVAL-STATE-RESET", history.rule_eval_state_reset, 5,
+             "every container field of an expression class that evaluation code mutates is re-created by the reset "
+             "traversal, re-initialised per evaluation, persistent by type (result cache / domain memo) or benign"),
+        Rule("COVERAGE-AFTER-COMPLETION", history.rule_coverage_after_completion, 6,
+             "coverage writes into result caches that a yield can follow require every public entry to invalidate the "
+             "tree's result caches on each exceptional / close exit"),
+        Rule("NO-DOMAIN-MUTATION", history.rule_no_domain_mutation, 3,
+             "no mutating operation is applied to a value that is the user's domain object"),
+    ],
+    explanation="History independence is absence of residue on the shared expression nodes. Decided: where residue is "
+                "written (discovered mechanically from dataclass fields and mutation sites reachable from evaluation "
+                "methods over the call graph) and that it is cleared on every exit (CFG with exceptional and "
+                "generator-close edges); that result-cache coverage recorded before completion is rolled back on "
+                "every abnormal exit; that user domains are never mutated. Not decided: equality of results across "
+                "interleavings of different queries sharing variables (needs the runtime contents of the caches).",
+    assumptions=["evaluation generators abandoned *inside* the engine (ForAll early exit, the() nested in a query) are "
+                 "reported informationally only", "cleanup statements do not raise"],
+    design_ref="DESIGN.md §2 C04",
+))
